@@ -57,6 +57,12 @@ CHECKS = {
    text=("Theorem over the call-site inventory regenerated from today's sources: the library's eighteen open() calls pass caller-supplied or stored archive names with fixed modes (READ for archives/patches/bases, WRITE for outputs). "
          "All other clauses (handle liveness, seek modes, sizes, buffer bounds, copy overlap, free of live/NULL pointers, filename identity) are checked on every callback invocation by the instrumented system over enumerated scenarios and single faults."),
    note=PROOF_NOTE + " Dynamic clauses: enumeration, not a theorem.", technique="Lean 4 decide over regenerated call-site inventory + instrumented-system argument checks under fault enumeration"),
+ "C06": dict(category="proof",
+   text=("Theorems on the model of oabd.c: a well-formed full file (any block list, block_max, DECOMPBUF >= 1, trailing bytes) decompresses with status OK to exactly the blocks' data, and a well-formed patch applied to a base "
+         "starting with the blocks' reference data to exactly the target (header SourceSize/SourceCRC/TargetCRC arbitrary); stored blocks and copy_fh's chunking are proved outright, an LZX block enters through its decoder law "
+         "(init succeeds with the window size oabd.c derives, the data comes out, input ends after the payload, CRC matches) which is a hypothesis validated by differential runs; the window-size rule and CRC accumulation are theorems. "
+         "The OAB and LZX DELTA models are executable Lean and agree with the implementation on generated files and patch/base pairs under many DECOMPBUF values; the implementation is judged against the plan."),
+   note=PROOF_NOTE + " LZX DELTA decoding itself: differential validation, not a theorem.", technique="Lean 4 theorems (induction over the block list; copy_fh loop invariant) + executable model + plan oracle and differential runs"),
  "C05": dict(category="translation_validation",
    text=("Executable Lean models of szddd.c, kwajd.c (headers and the LZH decoder), lzssd.c and mszipd_decompress_kwaj are compared with the implementation on generated well-formed files "
          "(both SZDD variants, all five KWAJ methods, all 64 header-flag combinations, all four LZH length encodings) and on the shipped fixtures; the implementation is judged against the plan "
